@@ -163,6 +163,12 @@ Theorem C14_other_recipient_rejected : forall dec c s m seq o0,
 Proof. exact osc_request_other_recipient. Qed.
 Print Assumptions C14_other_recipient_rejected.
 
+(* the handler of an OSCORE-only resource sees nothing but successfully verified requests *)
+Theorem C14_oscore_only_gate : forall dec s o m',
+  osc_server_deliver dec s true o = Some m' -> osc_unprotect_req_gen dec s o = Some m'.
+Proof. exact osc_only_gate. Qed.
+Print Assumptions C14_oscore_only_gate.
+
 (* ---- tamper rejection UNDER AN ASSUMED IDEAL AEAD ----
    The premise [forall n a c p, dec K n a c = Some p -> sent n a c] (ideal ciphertext integrity:
    under key K nothing decrypts except what was emitted under K) is NOT proved for AES-CCM - with
